@@ -127,7 +127,10 @@ pub fn scenario(idx: usize, seed: u64, huge: bool) -> ScenarioResult {
         let (mc, ms): (Option<usize>, Option<usize>) = if huge {
             (None, None)
         } else {
-            let pick = |rng: &mut StdRng| *LIMITS[1..].choose(rng).unwrap();
+            // one pick in ten is a limit at or beyond what a 4-byte length prefix can express (a
+            // perfectly legal configuration value): nothing the scenario sends comes near it
+            const GIANT: [usize; 4] = [1 << 32, (1 << 32) + 64, (1 << 33) + 1_000, usize::MAX];
+            let pick = |rng: &mut StdRng| if rng.gen_range(0..10) == 0 { Some(*GIANT.choose(rng).unwrap()) } else { *LIMITS[1..].choose(rng).unwrap() };
             match placement {
                 0 => (pick(&mut rng), None),
                 1 => (None, pick(&mut rng)),
@@ -167,7 +170,7 @@ pub fn scenario(idx: usize, seed: u64, huge: bool) -> ScenarioResult {
             let which = rng.gen_range(0..4); // 0 hq 1 bq 2 hr 3 br
             let near: usize = if huge {
                 *[EIGHT_MIB - 1, EIGHT_MIB, EIGHT_MIB + 1, 12 << 20, 32 << 20].get(k % 5).unwrap_or(&EIGHT_MIB)
-            } else if let Some(l) = lims.choose(&mut rng) {
+            } else if let Some(l) = lims.choose(&mut rng).filter(|l| **l < (1 << 31)) {
                 (*l as i64 + rng.gen_range(-2..=2)).max(0) as usize
             } else {
                 *[0usize, 1, 1_000, 70_000, 1 << 20].choose(&mut rng).unwrap()
@@ -379,7 +382,7 @@ pub fn run(ctx: &Ctx) -> i32 {
         tier,
         seed: ctx.seed,
         level: "exploration",
-        rule: "codec level: for every limit in {None,0,1,100,1000,65536,1MiB} frames of limit-2..limit+2 bytes (and 8 MiB-1/8 MiB/8 MiB+1/12 MiB with no limit) through the real frame codec, encode and decode, vs. the reference 'accepted iff size <= limit'. end to end: two real Networks, limit placed on caller / callee / both / neither; 14 sequential RPCs each aiming one of the four frames (request header via a padded header value, request body, response header via a padded response header, response body) at limit-2..limit+2 of an applicable limit, compared with the reference classification (success / refused by sender before transmission / refused by receiver / response refused); plus 8 MiB-boundary and 12/32 MiB RPCs with no limit. every error must be an error for that RPC only: no hang, no truncated Ok, listing unchanged, no LostPeer, follow-up RPC succeeds".into(),
+        rule: "codec level: for every limit in {None,0,1,100,1000,65536,1MiB} frames of limit-2..limit+2 bytes (and 8 MiB-1/8 MiB/8 MiB+1/12 MiB with no limit) through the real frame codec, encode and decode, vs. the reference 'accepted iff size <= limit'. end to end: two real Networks, limit placed on caller / callee / both / neither; 14 sequential RPCs each aiming one of the four frames (request header via a padded header value, request body, response header via a padded response header, response body) at limit-2..limit+2 of an applicable limit, compared with the reference classification (success / refused by sender before transmission / refused by receiver / response refused); plus 8 MiB-boundary and 12/32 MiB RPCs with no limit. every error must be an error for that RPC only: no hang, no truncated Ok, listing unchanged, no LostPeer, follow-up RPC succeeds One configured limit in ten is 2^32, 2^32+64, 2^33+1000 or usize::MAX (legal values beyond what a 4-byte length prefix expresses) with ordinary message sizes: nothing may be refused.".into(),
         assumptions: vec!["header-frame sizes are computed by the independent reference encoder".into()],
         summary,
         extra: Default::default(),
